@@ -397,6 +397,28 @@ func rulesC14(e *Engine, r *Report) {
 		}
 		r.Min("R14.2", "loop continuations in sanitizeRelativePath", nb, 2)
 	}
+	// ---------------------------------------------------------------- R14.9
+	r.Rule("R14.9", "a serve root must be written clean and absolute: fileutil.Clean compares filepath.Clean of the path AS GIVEN with its absolute form and refuses a difference - so an empty or relative root (no serve directory configured) is an error and not silently the process's working directory; cleaning the absolute form instead makes the comparison vacuous (Abs already cleans)")
+	if fn := needFn(e, r, "R14.9", "fileutil.Clean"); fn != nil {
+		edges := e.ifEdges(fn, "(call(filepath.Abs)(p0)#0 «(!=|==)» call(filepath.Clean)(p0))")
+		edges = append(edges, e.ifEdges(fn, "(call(filepath.Clean)(p0) «(!=|==)» call(filepath.Abs)(p0)#0)")...)
+		r.Check(len(edges) >= 2, "R14.9", "fileutil.Clean: Clean(path) is compared with Abs(path)", e.Pos(fn.Pos()),
+			"the path as given is no longer compared with its absolute form: a relative or empty root passes", 1)
+		cls := labeler(
+			C("(call(filepath.Abs)(p0)#0 == call(filepath.Clean)(p0))", "same"),
+			C("(call(filepath.Clean)(p0) == call(filepath.Abs)(p0)#0)", "same"),
+		)
+		n := 0
+		for _, rw := range e.returnWorlds(r, "R14.9", fn, cls) {
+			rt := rw.In.(*ssa.Return)
+			if len(rt.Results) == 2 && e.Canon(rt.Results[1]) == "nil" {
+				n++
+				r.Check(rw.W.Has("same"), "R14.9", fmt.Sprintf("fileutil.Clean: success return b%d only for a clean absolute path", rw.In.Block().Index), e.InstrPos(rw.In),
+					"Clean returns a path without an error although the given path was not found equal to its absolute form", 1, rw.W.String())
+			}
+		}
+		r.Min("R14.9", "success returns of fileutil.Clean", n, 1)
+	}
 }
 
 func rulesC15(e *Engine, r *Report) {
